@@ -298,6 +298,33 @@ class CallListerVisitor(ast.NodeVisitor):
             self.namespace[node.rest] = Unknown(node)
         self.generic_visit(node)
 
+    def visit_For(self, node):
+        # the body of a loop may run again after its last statement: what it
+        # does to the names is looked at first, on its own
+        n_calls = len(self.calls)
+        n_revisit = len(self.to_revisit)
+        names = self.namespace.names
+        before = dict(names)
+        for stmt in node.body:
+            self.visit(stmt)
+        del self.calls[n_calls:]
+        del self.to_revisit[n_revisit:]
+        for name, value in list(names.items()):
+            # other names merely read by the body are as they were
+            source = getattr(value, 'source', None)
+            if (
+                    value is not before.get(name)
+                    and not isinstance(before.get(name), Arg)
+                    and isinstance(source, ast.Name)
+                    and isinstance(source.ctx, ast.Load)):
+                if name in before:
+                    names[name] = before[name]
+                else:
+                    del names[name]
+        self.generic_visit(node)
+
+    visit_AsyncFor = visit_While = visit_For
+
     def visit_ListComp(self, node):
         # the targets are bound before the element is evaluated
         for comp in node.generators:
